@@ -1,7 +1,7 @@
 (* C02 — correspondence / property evaluation on histories observed on the
    implementation.  Executable only. *)
 From Coq Require Import List ZArith QArith Qabs Bool.
-From GZ Require Export Lib.CheckLib Lib.RollingWindow C02.Model C02.Wrap C02.Conc.
+From GZ Require Export Lib.CheckLib Lib.RollingWindow C02.Model C02.Wrap C02.Conc C02.World.
 Import ListNotations.
 Open Scope Z_scope.
 
@@ -16,8 +16,10 @@ Inductive oobs :=
 | ORD (done : bool) (fl am ae : Z)
     (* Pass / Fail started while another goroutine holds avgFlyingLock: past its decrement (flying after),
        its sample for the moving average still to come *)
-| OFold.
+| OFold
     (* the lock is given back: the waiting resolutions fold their samples in, in SOME order *)
+| OMark.
+    (* forced schedules: a call that was parked at the drop log line performs droppedRecently.Set(true) and returns *)
     (* a place-holder that keeps the operation indices aligned (forced-schedule cases: the
        operations that start an Allow or let a dropper return are not Allow / Pass / Fail events) *)
 
@@ -96,7 +98,7 @@ Fixpoint agree_loop (wb : bool) (s : state) (l : list (op * oobs)) : bool :=
       match ob with
       | OA shed _ _ _ _ _ _ _ => negb shed && is_grant r
       | OR done _ _ _ => eqb done (is_done r)
-      | OSkip | ORD _ _ _ _ | OFold => false
+      | OSkip | ORD _ _ _ _ | OFold | OMark => false
       end && agree_loop wb s' l'
   end.
 
@@ -117,8 +119,8 @@ Record acc := mkAcc
     aadm : list (Z * Z);     (* granted: (id, start) *)
     apass : list (Z * Z);    (* completed passes: (grid index of the time, latency ms) *)
     afl : Z;                 (* #granted - #resolutions *)
-    aovers : list Z;         (* times of the Allows whose CPU reading was >= threshold *)
-    ashed : bool;            (* an Allow was shed before *)
+    aep : Z * bool;          (* [episode]: (clock of the last Allow whose CPU reading was >= threshold, 0 if none;
+                                shedding in progress) - from the operations and the observed verdicts alone *)
     aavg : Q;                (* the moving average of flying, RECOMPUTED from the history (not the observed avgFlying) *)
     alast : Z }.             (* time of the previous clock reading *)
 
@@ -167,6 +169,31 @@ Fixpoint monotone (last : Z) (l : list (op * oobs)) : bool :=
     end
   end.
 
+(* "shedding in progress", from the history alone: an episode starts with a shed request and ends at the first
+   Allow that reads a CPU below the threshold at least coolOffDuration after the last Allow that read it at or
+   above (C02/ProofsEpisode.v: this is what the shedder keeps in overloadTime / droppedRecently, for every history) *)
+Definition is_shed (r : res) : bool := match r with RShed => true | _ => false end.
+
+Definition episode_step (th : Z) (e : Z * bool) (o : op) (r : res) : Z * bool :=
+  match o with
+  | OAllow now c1 _ =>
+    if th <=? c1 then (now, snd e || is_shed r)
+    else
+      let ended := snd e && negb (fst e =? 0) && (coolOffDuration <=? now - fst e) in
+      (fst e, (if ended then false else snd e) || is_shed r)
+  | OPass _ _ | OFail _ => e
+  end.
+
+Fixpoint episode (th : Z) (e : Z * bool) (ops : list op) (rs : list res) : Z * bool :=
+  match ops, rs with
+  | o :: ops', r :: rs' => episode th (episode_step th e o r) ops' rs'
+  | _, _ => e
+  end.
+
+(* may an Allow at [now] with checker reading [c1] be shed at all? *)
+Definition hot_ref (th : Z) (e : Z * bool) (now c1 : Z) : bool :=
+  (th <=? c1) || (snd e && negb (fst e =? 0) && (now - fst e <? coolOffDuration)).
+
 Definition check_allow (excl wb : bool) (c : config) (t0 : Z) (mono : bool) (a : acc) (avglo : Q)
            (now c1 c2 : Z) (shed : bool) (fl cm ce : Z) : bool :=
   let th := cthreshold c in
@@ -177,7 +204,7 @@ Definition check_allow (excl wb : bool) (c : config) (t0 : Z) (mono : bool) (a :
   let over := th <=? c1 in
   (* shed only if hot and loaded *)
   (if shed then
-     (over || (ashed a && existsb (fun tj => now - tj <? coolOffDuration) (aovers a)))
+     hot_ref th (aep a) now c1
      && (0 <? afl a)
      && (negb mono ||
          ((if ref_exact c raw then q_ltb lb fb else q_ltb lb (fb * slack)%Q)
@@ -210,12 +237,15 @@ Fixpoint prop_loop (excl wb : bool) (c : config) (t0 : Z) (mono : bool) (a : acc
     match o, ob with
     | _, OSkip =>
       prop_loop excl wb c t0 mono
-           (mkAcc (aidx a + 1) (aadm a) (apass a) (afl a) (aovers a) (ashed a) (aavg a) (alast a)) lo pend l'
+           (mkAcc (aidx a + 1) (aadm a) (apass a) (afl a) (aep a) (aavg a) (alast a)) lo pend l'
+    | _, OMark =>
+      prop_loop excl wb c t0 mono
+           (mkAcc (aidx a + 1) (aadm a) (apass a) (afl a) (fst (aep a), true) (aavg a) (alast a)) lo pend l'
     | _, OFold =>
       (* largest: small samples first; smallest: large samples first (the last sample weighs most) *)
       let up := sort_z pend in
       prop_loop excl wb c t0 mono
-           (mkAcc (aidx a + 1) (aadm a) (apass a) (afl a) (aovers a) (ashed a)
+           (mkAcc (aidx a + 1) (aadm a) (apass a) (afl a) (aep a)
                   (fold_left ref_avg up (aavg a)) (alast a))
            (fold_left ref_avg (rev up) lo) [] l'
     | OPass id now, ORD done fl am ae =>
@@ -228,14 +258,14 @@ Fixpoint prop_loop (excl wb : bool) (c : config) (t0 : Z) (mono : bool) (a : acc
                   (match st with
                    | Some start => if done then (grid t0 (bucket_duration c) now, ceil_ms (now - start)) :: apass a else apass a
                    | None => apass a end)
-                  fl' (aovers a) (ashed a) (aavg a) now) lo (if done then fl' :: pend else pend) l'
+                  fl' (aep a) (aavg a) now) lo (if done then fl' :: pend else pend) l'
     | OFail id, ORD done fl am ae =>
       let st := prom_start id (aadm a) in
       let ok := match st with Some _ => done | None => negb done end in
       let fl' := if done then afl a - 1 else afl a in
       ok && (fl =? fl')
       && prop_loop excl wb c t0 mono
-           (mkAcc (aidx a + 1) (aadm a) (apass a) fl' (aovers a) (ashed a) (aavg a) (alast a))
+           (mkAcc (aidx a + 1) (aadm a) (apass a) fl' (aep a) (aavg a) (alast a))
            lo (if done then fl' :: pend else pend) l'
     | OAllow now c1 c2, OA shed fl _ _ am ae cm ce =>
       check_allow excl wb c t0 mono a lo now c1 c2 shed fl cm ce
@@ -244,8 +274,8 @@ Fixpoint prop_loop (excl wb : bool) (c : config) (t0 : Z) (mono : bool) (a : acc
                   (if shed then aadm a else (aidx a, now) :: aadm a)
                   (apass a)
                   (if shed then afl a else afl a + 1)
-                  (if cthreshold c <=? c1 then now :: aovers a else aovers a)
-                  (ashed a || shed) (aavg a) now) lo pend l'
+                  (episode_step (cthreshold c) (aep a) (OAllow now c1 c2) (if shed then RShed else RAdmit))
+                  (aavg a) now) lo pend l'
     | OPass id now, OR done fl am ae =>
       let st := prom_start id (aadm a) in
       let ok := match st with Some _ => done | None => negb done end in
@@ -256,7 +286,7 @@ Fixpoint prop_loop (excl wb : bool) (c : config) (t0 : Z) (mono : bool) (a : acc
                   (match st with
                    | Some start => if done then (grid t0 (bucket_duration c) now, ceil_ms (now - start)) :: apass a else apass a
                    | None => apass a end)
-                  fl' (aovers a) (ashed a) (if done then ref_avg (aavg a) fl' else aavg a) now)
+                  fl' (aep a) (if done then ref_avg (aavg a) fl' else aavg a) now)
            (if done then ref_avg lo fl' else lo) pend l'
     | OFail id, OR done fl am ae =>
       let st := prom_start id (aadm a) in
@@ -264,7 +294,7 @@ Fixpoint prop_loop (excl wb : bool) (c : config) (t0 : Z) (mono : bool) (a : acc
       let fl' := if done then afl a - 1 else afl a in
       ok && (fl =? fl')
       && prop_loop excl wb c t0 mono
-           (mkAcc (aidx a + 1) (aadm a) (apass a) fl' (aovers a) (ashed a) (if done then ref_avg (aavg a) fl' else aavg a) (alast a))
+           (mkAcc (aidx a + 1) (aadm a) (apass a) fl' (aep a) (if done then ref_avg (aavg a) fl' else aavg a) (alast a))
            (if done then ref_avg lo fl' else lo) pend l'
     | _, _ => false
     end
@@ -278,7 +308,7 @@ Definition prop_gen (excl : bool) (c : scase) : bool :=
     if cnop c then never_shed (cops c)
     else csame c
          && prop_loop excl (cwb c) (ccfg c) (ct0 c) (monotone (ct0 c) (cops c))
-                      (mkAcc 0 [] [] 0 [] false 0%Q (ct0 c)) 0%Q [] (cops c)
+                      (mkAcc 0 [] [] 0 (0, false) 0%Q (ct0 c)) 0%Q [] (cops c)
   else
     (* built after load.Disable(): whatever was built, it never sheds (that a nopShedder was built is
        compared by [s_agrees]) *)
@@ -667,7 +697,8 @@ Fixpoint k_core (held : bool) (afl : Z) (l : list (cop * cobs)) : option (list (
       | (KFail id, KR done _ am ae) =>
         let a := if done then afl - 1 else afl in
         (held, a, Some (OFail id, if held then ORD done a am ae else OR done a am ae))
-      | (KEnter, KN _ _ _ _) | (KFinish _, KN _ _ _ _) => (held, afl, Some (OFail (-1), OSkip))
+      | (KEnter, KN _ _ _ _) => (held, afl, Some (OFail (-1), OSkip))
+      | (KFinish _, KN _ _ _ _) => (held, afl, Some (OFail (-1), OMark))
       | (KHold, KN _ _ _ _) => (true, afl, Some (OFail (-1), OSkip))
       | (KRelease, KN _ _ _ _) => (false, afl, Some (OFail (-1), OFold))
       | _ => (held, afl, None)
@@ -688,13 +719,33 @@ Inductive case :=
 | CShed (c : scase)
 | CConc (c : config) (t0 : Z) (ws : Z * Z) (l : list (cop * cobs))
 | CMulti (l : list scase)     (* several shedders of one process, operations interleaved, Disable() in between *)
+| CWorld (evs : list wev) (l : list scase)
+    (* the same with the ORDER of the configuration calls made explicit: [evs] = the Disable / NewAdaptiveShedder /
+       NewShedderGroup / GetShedder calls of the scenario in the order in which they were made, [l] = the shedders
+       in the order in which they were built; the configuration, start clock and enabled flag each history is
+       judged with must be the birth certificate the world model (C02/World.v) issues for that order *)
 | CWReal (c : config) (t0 : Z) (l : list (wrop * wrobs))
 | CWrap (l : list (wreq * wobs))
 | CGroup (keys : list Z) (obs : list (Z * Z)).
 
+Definition cert_matches (ct : cert) (sc : scase) : bool :=
+  let '(o, t0, en) := ct in
+  (owindow o =? cwindow (ccfg sc)) && (obuckets o =? cbuckets (ccfg sc)) && (othreshold o =? cthreshold (ccfg sc))
+  && eqb en (cenabled (ccfg sc)) && (t0 =? ct0 sc).
+
+Fixpoint certs_match (cs : list cert) (l : list scase) : bool :=
+  match cs, l with
+  | [], [] => true
+  | ct :: cs', sc :: l' => cert_matches ct sc && certs_match cs' l'
+  | _, _ => false
+  end.
+
+Definition world_ok (evs : list wev) (l : list scase) : bool :=
+  forallb is_config evs && certs_match (wcerts (wfinal w0 evs)) l.
+
 Definition agrees (c : case) : bool :=
   match c with
-  | CShed c => s_agrees c | CMulti l => forallb s_agrees l | CWReal c t0 l => wr_agrees c t0 l
+  | CShed c => s_agrees c | CMulti l => forallb s_agrees l | CWorld evs l => world_ok evs l && forallb s_agrees l | CWReal c t0 l => wr_agrees c t0 l
   | CConc c t0 ws l => k_agrees c t0 ws l
   | CWrap l => w_agrees l | CGroup k o => g_agrees k o
   end.
@@ -702,7 +753,8 @@ Definition agrees (c : case) : bool :=
 (* the property at full strength (every configuration) *)
 Definition prop_ok (c : case) : bool :=
   match c with
-  | CShed c => prop_gen false c | CMulti l => forallb (prop_gen false) l | CWReal c t0 l => wr_prop false c t0 l
+  | CShed c => prop_gen false c | CMulti l => forallb (prop_gen false) l
+  | CWorld evs l => world_ok evs l && forallb (prop_gen false) l | CWReal c t0 l => wr_prop false c t0 l
   | CConc c t0 ws l => k_prop false c t0 ws l
   | CWrap l => w_prop l | CGroup k o => g_prop k o
   end.
@@ -710,7 +762,8 @@ Definition prop_ok (c : case) : bool :=
    used only to recognise the known finding: prop_ok fails, prop_ok_excl holds *)
 Definition prop_ok_excl (c : case) : bool :=
   match c with
-  | CShed c => prop_gen true c | CMulti l => forallb (prop_gen true) l | CWReal c t0 l => wr_prop true c t0 l
+  | CShed c => prop_gen true c | CMulti l => forallb (prop_gen true) l
+  | CWorld evs l => world_ok evs l && forallb (prop_gen true) l | CWReal c t0 l => wr_prop true c t0 l
   | CConc c t0 ws l => k_prop true c t0 ws l
   | CWrap l => w_prop l | CGroup k o => g_prop k o
   end.
@@ -732,7 +785,7 @@ Definition model_obs (c : case) :=
     let ops := map fst l in
     (map (fun t => (match tres t with Some r => r | None => RNoop end, tfl t, tmp t, trt t))
          (snd (fold_left (fun m i => run_seg 14 m i false) (seq 0 (length ops)) (start c t0 (k_calls ops 0 ops)))), [], [])
-  | CMulti l => (concat (map (fun c => model_loop (init (ccfg c) (ct0 c)) (map fst (cops c))) l), [], [])
+  | CMulti l | CWorld _ l => (concat (map (fun c => model_loop (init (ccfg c) (ct0 c)) (map fst (cops c))) l), [], [])
   | CWReal c t0 l =>
     (match wr_scase true c t0 l with Some sc => model_loop (init c t0) (map fst (cops sc)) | None => [] end, [], [])
   | CWrap l => ([], map (fun x => wrap_model (fst x)) l, [])
